@@ -3,7 +3,7 @@ import itertools
 
 ID = "C07"
 HARNESS_PKG = "h_c07"
-COQ_IMPORTS = "From PV Require Import Model.Heights Model.Cursor Oracle.C06 Oracle.C07."
+COQ_IMPORTS = "From PV Require Import Model.Heights Model.Cursor Oracle.C06 Oracle.C07.\nOpen Scope N_scope."
 COQ_SHARD = 400
 TECHNIQUE = ("Coq proof (cursor state = pointwise maximum of all advances, permutation invariance, monotonicity of every stored cursor "
              "under any history of acks, rejection of foreign-topic acks) + differential correspondence of the Gallina model with the real "
@@ -143,19 +143,19 @@ def harness_line(case):
 
 
 def _coq_heights(m):
-    return "[" + ";".join("(%d%%N,[%s])" % (a, ";".join("(%d%%N,%d%%N)" % (l, h) for l, h in inner)) for a, inner in m) + "]"
+    return "[" + ";".join("(%d,[%s])" % (a, ";".join("(%d,%d)" % (l, h) for l, h in inner)) for a, inner in m) + "]"
 
 
 def _coq_xs(xs):
-    return "[" + ";".join("(%d%%N,%d%%N,%d%%N)" % tuple(x) for x in xs) + "]"
+    return "[" + ";".join("(%d,%d,%d)" % tuple(x) for x in xs) + "]"
 
 
 def _coq_insts(insts):
-    return "[" + ";".join("{|aname:=%d%%N;atopic:=%d%%N|}" % (_name_idx(i), i[1]) for i in insts) + "]"
+    return "[" + ";".join("{|aname:=%d;atopic:=%d|}" % (_name_idx(i), i[1]) for i in insts) + "]"
 
 
 def _coq_ops(ops):
-    return "[" + ";".join("(%d%%nat,{|hauthor:=%d%%N;hlog:=%d%%N;hseq:=%d%%N|})" % (i, a, t, h) for i, a, t, h in ops) + "]"
+    return "[" + ";".join("(%d%%nat,{|hauthor:=%d;hlog:=%d;hseq:=%d|})" % (i, a, t, h) for i, a, t, h in ops) + "]"
 
 
 def _init_sorted(case):
@@ -214,7 +214,7 @@ def coq_oracle(case, impl):
             return "false"
         seen, final = impl.split("|")
         seen = [t for t in seen.strip().split(",") if t != ""]
-        seen_c = "[" + ";".join("None" if t == "-" else "Some %d%%N" % int(t) for t in seen) + "]"
+        seen_c = "[" + ";".join("None" if t == "-" else "Some %d" % int(t) for t in seen) + "]"
         return "check_adv %s %s %s %s" % (_coq_heights(_init_sorted(case)), _coq_xs(case["xs"]), seen_c, _coq_heights(_parse_state(final)))
     steps = _parse_ack(impl)
     if steps is None:
